@@ -361,6 +361,7 @@ class Sim:
         self.loop = SimLoop(self)
         self.fault_counts = {}
         self.probes = {}
+        self.contexts = set()  # distinct situations in which an external request landed (coverage measure)
 
     # -- bookkeeping
     def record(self, kind, /, **data):
